@@ -33,6 +33,7 @@ func runC17Gaps2(c *eng.Ctx) {
 	c17g2HMAC(c)
 	c17g2Trim(c, &F)
 	c17g2PersistRollback(c)
+	c17g2ArchiveCopy(c, &F)
 	c17g2Datakey(c)
 	c17g2AssocHelper(c)
 }
@@ -856,6 +857,95 @@ func c17g2PersistRollback(c *eng.Ctx) {
 		}
 		if !late {
 			c.OK(clo, site, sts[0].Pos(), "restored on every failure edge from a snapshot taken before handleArchiving")
+		}
+	}
+}
+
+// ---------------------------------------------------------------------------
+// C17.3 the archive is brought up to date whenever it is stored
+
+// c17g2ArchiveCopy: the loop of handleArchiving that copies the live keys of
+// versions ArchiveVersion+1 .. LatestVersion into their archive slots is run
+// (its test is executed) on every path to storeArchive - it is not conditional
+// on the archive slice having to grow: a failed policy write leaves an archive
+// that already has a slot for the new version, and the retried rotation must
+// overwrite it with the key it really persists (seed C17-d). Every iteration
+// performs the copy, and the loop's bounds are the policy's own fields.
+func c17g2ArchiveCopy(c *eng.Ctx, F *c17fields) {
+	f := c.Fn("keysutil.(*Policy).handleArchiving")
+	if f == nil {
+		return
+	}
+	sa := instrsOf(eng.Calls(f, `^keysutil\.\(\*Policy\)\.storeArchive$`))
+	if len(sa) == 0 {
+		return // floor reported by c17durable
+	}
+	ld := c17loadOf
+	type copySite struct {
+		st  *ssa.Store
+		idx ssa.Value
+	}
+	var copies []copySite
+	for _, in := range eng.Instrs(f, func(in ssa.Instruction) bool { _, ok := in.(*ssa.Store); return ok }) {
+		st := in.(*ssa.Store)
+		ia, ok := st.Addr.(*ssa.IndexAddr)
+		if !ok {
+			continue
+		}
+		sl, ok := ia.X.Type().Underlying().(*types.Slice)
+		if !ok || c17typeName(sl.Elem()) != "keysutil.KeyEntry" {
+			continue
+		}
+		if lk, ok := st.Val.(*ssa.Lookup); ok && ld(F.keys)(lk.X) {
+			copies = append(copies, copySite{st, ia.Index})
+		}
+	}
+	if !c.Floor(f, "copies of a live key into an archive slot", len(copies), 1) {
+		return
+	}
+	isAdd1 := func(v ssa.Value, base c17match) bool {
+		bo, ok := c17strip(v).(*ssa.BinOp)
+		return ok && bo.Op == token.ADD && base(bo.X) && c17const("1")(bo.Y)
+	}
+	for _, cp := range copies {
+		var ver ssa.Value
+		if bo, ok := cp.idx.(*ssa.BinOp); ok && bo.Op == token.SUB {
+			ver = c17strip(bo.X)
+		}
+		phi, _ := ver.(*ssa.Phi)
+		c.Clause("R12", "C17.3")
+		site := "const{archive copy loop runs over ArchiveVersion+1 .. LatestVersion}"
+		if phi == nil || len(phi.Edges) != 2 {
+			c.Violation(f, site, cp.st.Pos(), "the archive slot is indexed by "+eng.ExprDeep(cp.idx)+", not by a loop counter over the versions to be archived", nil)
+			continue
+		}
+		start, step := false, false
+		for _, e := range phi.Edges {
+			start = start || isAdd1(e, ld(F.archiveVer))
+			step = step || isAdd1(e, c17is(phi))
+		}
+		hdr := phi.Block()
+		ifi := eng.IfOf(hdr)
+		var body []eng.Edge
+		for _, e := range c17rel(f, false, ld(F.latest), c17is(phi), false) { // !(LatestVersion < i)
+			if e.From == hdr {
+				body = append(body, e)
+			}
+		}
+		if !start || !step || ifi == nil || len(body) == 0 {
+			c.Violation(f, site, cp.st.Pos(), "the counter "+eng.ExprDeep(phi)+" does not start at ArchiveVersion+1, step by 1 and stop after LatestVersion: some new key version would not reach the archive (or an old slot would be overwritten)", nil)
+			continue
+		}
+		c.OK(f, site, cp.st.Pos(), eng.Expr(phi)+" while <= LatestVersion")
+		c.Clause("R3", "C17.3")
+		c.Before(f, "the archive copy loop (its test)", []ssa.Instruction{ifi}, "storeArchive", sa)
+		c.Clause("R4", "C17.3")
+		s2 := "on{a version in (ArchiveVersion, LatestVersion]} its live key is copied into its archive slot"
+		target := ssa.Instruction(ifi)
+		if h := eng.Reach(eng.Query{Fn: f, StartEdges: body, Barriers: []ssa.Instruction{cp.st}, Target: func(in ssa.Instruction) bool { return in == target }}); h != nil {
+			c.Violation(f, s2, h.Instr.Pos(), "an iteration of the copy loop can complete without writing the archive slot", h.Witness)
+		} else {
+			c.OK(f, s2, cp.st.Pos(), "every iteration of the loop passes the copy")
 		}
 	}
 }
